@@ -536,6 +536,69 @@ example : ((start sdCfg).1.run (sdToFlop.take 3)).round = .preflop ∧
 
 end Examples
 
+/-! ## LINK 2, one more corollary: an uncalled excess goes back to its owner -/
+
+/-- "An uncalled excess goes back to its owner", for the engine (C02 `excess_returned` applied to
+    `g.seats`, like the other `showdown_*` corollaries): in a closed hand of a `PokerConfig` with a
+    shipped table and at least one hole card, if every OTHER seat put in at most `m` chips
+    (`pot + wager ≤ m`, `m ≥ 0`) and player `p` put in more than `m`, then `p` loses at most `m`:
+    the part of `p`'s stake above `m`, which nobody called, comes back.  With `m` the largest
+    amount put in by another seat this is the statement of DESIGN §6. -/
+theorem showdown_excess_returned {T : List Cat} (hT : ShippedTable T) {cfg : Config} (hc : PokerConfig T cfg)
+    (h1 : 1 ≤ cfg.opts.holeCount) (ops : List Op)
+    (he : ((start cfg).1.run ops).event = .gameClosed)
+    (p : Player) (hp : p ∈ ((start cfg).1.run ops).players) (m : Int) (hm : 0 ≤ m)
+    (hothers : ∀ q ∈ ((start cfg).1.run ops).players, q.idx ≠ p.idx → q.pot + q.wager ≤ m)
+    (hlt : m < p.pot + p.wager) :
+    -m ≤ C02.changed ((start cfg).1.run ops).seats p.idx :=
+  C02.excess_returned _ (showdown_valid hT hc h1 ops he) (seatOf p) (mem_seats hp) m hm
+    (fun t ht hne => by obtain ⟨q, hq, rfl⟩ := List.mem_map.mp ht; exact hothers q hq hne) hlt
+
+namespace Examples
+
+/-- the dealer raises to 40, both blinds fold: 30 of the 40 chips are uncalled -/
+def opsUncalled : List Op :=
+  [.ready, .payBlinds, .ready, .act none .raise 40, .act none .fold 0, .act none .fold 0, .next]
+
+/-- The hypotheses of `showdown_excess_returned` are satisfiable (closed hand, the others put in at
+    most `m = 10 < 40`), and its conclusion `−10 ≤ changed` is met with `changed = +15`. -/
+theorem uncalled_facts :
+    ((start exCfg).1.run opsUncalled).event = .gameClosed ∧
+    ((start exCfg).1.run opsUncalled).players.map (fun p => (p.idx, p.pot + p.wager, p.fold)) =
+      [(0, 40, false), (1, 5, true), (2, 10, true)] ∧
+    ((start exCfg).1.run opsUncalled).players.map
+      (fun p => C02.changed ((start exCfg).1.run opsUncalled).seats p.idx) = [15, -5, -10] := by
+  decide +kernel
+
+example : ∀ p ∈ ((start exCfg).1.run opsUncalled).players, p.idx = 0 →
+    -10 ≤ C02.changed ((start exCfg).1.run opsUncalled).seats p.idx := by
+  intro p hp h0
+  have hpl : ((start exCfg).1.run opsUncalled).players.map (fun p => (p.idx, p.pot + p.wager)) =
+      [(0, 40), (1, 5), (2, 10)] := by
+    have := congrArg (List.map fun x : Nat × Int × Bool => (x.1, x.2.1)) uncalled_facts.2.1
+    simpa [List.map_map, Function.comp_def] using this
+  have hall : ∀ q ∈ ((start exCfg).1.run opsUncalled).players,
+      (q.idx, q.pot + q.wager) ∈ [((0 : Nat), (40 : Int)), (1, 5), (2, 10)] := by
+    intro q hq
+    rw [← hpl]
+    exact List.mem_map.mpr ⟨q, hq, rfl⟩
+  apply showdown_excess_returned (Or.inl rfl) exPC (by decide) opsUncalled uncalled_facts.1 p hp 10 (by decide)
+  · intro q hq hne
+    have := hall q hq
+    simp only [List.mem_cons, Prod.mk.injEq, List.not_mem_nil, or_false] at this
+    rcases this with ⟨h, _⟩ | ⟨_, h⟩ | ⟨_, h⟩
+    · exact absurd (h.trans h0.symm) hne
+    · omega
+    · omega
+  · have := hall p hp
+    simp only [List.mem_cons, Prod.mk.injEq, List.not_mem_nil, or_false] at this
+    rcases this with ⟨_, h⟩ | ⟨h, _⟩ | ⟨h, _⟩
+    · omega
+    · omega
+    · omega
+
+end Examples
+
 end Pokerface.Links
 
 section Axioms
@@ -552,6 +615,7 @@ open Pokerface.Links
 #print axioms showdown_loses_at_most_stake
 #print axioms showdown_no_gain_from_unpaid_layer
 #print axioms showdown_tie_fair
+#print axioms showdown_excess_returned
 #print axioms reported_hand_is_poker_best
 #print axioms reported_hand_is_poker_best_shortDeck
 #print axioms five_cards_from_flop
